@@ -25,7 +25,9 @@ NESTED = ['nested-abort', 'nested-reject', 'nested-release', 'nested-silent',
 REAL = ['real-timeout-propagates', 'real-timeout-caught', 'real-timeout-caught-then-echo']
 # the acceptor accepts the association but none of the proposed contexts
 NOCTX = ['no-context-normal', 'no-context-error']
-VARIANTS = HAND + NESTED + REAL + NOCTX
+# the block is left normally, but the peer never confirms the release
+UNANSWERED = ['release-unanswered']
+VARIANTS = HAND + NESTED + REAL + NOCTX + UNANSWERED
 POINTS = ['before', 'between', 'during']
 ACCEPTORS = ['lib', 'refpeer']
 
@@ -66,7 +68,7 @@ def run_case(res, case, attempt=0):
     variant = VARIANTS[j % len(VARIANTS)]
     point = POINTS[(j // len(VARIANTS)) % len(POINTS)]
     acceptor = ACCEPTORS[(j // (len(VARIANTS) * len(POINTS))) % 2]
-    if variant in REAL or variant in NOCTX:
+    if variant in REAL or variant in NOCTX or variant in UNANSWERED:
         acceptor = 'refpeer'          # only the reference peer can fall silent on purpose
     if variant in NOCTX:
         point = 'before'
@@ -117,6 +119,14 @@ def run_case(res, case, attempt=0):
                 return
             if isinstance(item, dict):
                 peer_seen.append((item['type'], item.get('source'), item.get('reason')))
+                if item['type'] == 5 and variant in UNANSWERED:
+                    # never confirmed: whatever the requestor does once it gives up is recorded
+                    try:
+                        nxt = peer.recv_pdu()
+                        peer_seen.append((nxt['type'], nxt.get('source'), nxt.get('reason')))
+                    except tcpnet.PeerClosed:
+                        peer_seen.append('closed')
+                    return
                 if item['type'] == 5:
                     peer.send_pdu({'type': 6})
                     peer.wait_closed(3.0)
@@ -184,6 +194,10 @@ def run_case(res, case, attempt=0):
         if point == 'during':
             st = assoc.get_scu(svc.CT)(dataset(), 5)
             state['store'] = int(st)
+        if variant in UNANSWERED:
+            state['planned_timeout'] = True
+            assoc.ae.timeout = 0.5           # give up on the release confirmation soon
+            return
         if variant == 'no-context-normal':
             return
         if variant == 'no-context-error':
@@ -293,6 +307,18 @@ def run_case(res, case, attempt=0):
                  'real-timeout-propagates': exceptions.DCMTimeoutError}.get(variant)
     if variant in HAND:
         want_type = type(make_exc(variant))
+    if variant in UNANSWERED:
+        # release requested, never confirmed: the requestor gives up, tells the peer (A-ABORT), and
+        # leaves nothing behind - no provider thread, no open connection
+        res.count('oracle.unconfirmed-release')
+        if not isinstance(error, exceptions.DCMTimeoutError):
+            res.violation('error-not-propagated:exit', 'C14.context-manager', '%s: block left with %s: %s' % (
+                where, type(error).__name__, error), case)
+        if [e[0] for e in ends] != [5, 7] or tcpnet.provider_threads():
+            res.violation('unconfirmed-release-leaves-association-open', 'C14.context-manager',
+                          '%s: requestor wrote %r, %d provider thread(s) still alive' % (
+                              where, ends, len(tcpnet.provider_threads())), case)
+        return
     if normal_exit:
         res.count('oracle.exit-after-timeout-releases')
         if error is not None:
